@@ -38,6 +38,8 @@ pub enum FieldTy {
     Inner,
     /// vrt::NoDef(u16): Debug + PartialEq only (no Default, no Clone)
     NoDef,
+    /// C19: module-local `W` (core only): From<&str>, Default, Display, AsRef<str>
+    CoreW,
 }
 
 impl FieldTy {
@@ -65,6 +67,7 @@ impl FieldTy {
             FieldTy::Spy => "vrt::Spy",
             FieldTy::Inner => "vrt::Inner",
             FieldTy::NoDef => "vrt::NoDef",
+            FieldTy::CoreW => "W",
         }
     }
     /// `vrt::R::r` rendering of `Default::default()` for this type.
@@ -85,6 +88,7 @@ impl FieldTy {
             FieldTy::Spy => "Spy",
             FieldTy::Inner => "Alpha",
             FieldTy::NoDef => "NoDef(0)",
+            FieldTy::CoreW => "W",
         }
     }
     /// expression returned by a generated `default_with` function of this type, and its rendering.
